@@ -2,7 +2,7 @@
 (* Off-the-Record messaging (protocol version 2) as golang.org/x/crypto/otr implements it:
    otr.go  Conversation.Receive / Send / End / Authenticate / IsEncrypted, processFragment, encode,
            the AKE state machine (authStateNone / AwaitingDHKey / AwaitingRevealSig / AwaitingSig,
-           SYN-crossing by comparing the hashed commits), processData / generateData (key ids, the
+           SYN-crossing by comparing the hashed commits, a malformed commit), processData / generateData (key ids, the
            four key slots, counters, DH-key rotation), TLV dispatch;
    smp.go  processSMP / startSMP (smpState1..4, secret, saved TLV, abort handling).
 
@@ -36,7 +36,9 @@ CONSTANTS Starts,       \* set of subsets of {"a","b"}: who has put the query me
           Secrets,      \* secret tokens b's user may hold; a's user holds "s1"
           Questions,    \* subset of {0,1}: SMP started without / with a question
           AllowEnd,     \* may a user call End (once in total)
-          MaxRequery    \* query messages a user may send again while encrypted (re-keying), in total
+          MaxRequery,   \* query messages a user may send again while encrypted (re-keying), in total
+          FixCommitState \* TRUE: the code since otr b85d235 (AwaitingRevealSig entered only after the D-H commit parsed);
+                         \* FALSE only in OTR_DocCommitState.cfg, whose counterexample (a state without a D-H key) TLC must find
 
 Parties == {"a", "b"}
 Peer(p) == IF p = "a" THEN "b" ELSE "a"
@@ -131,6 +133,16 @@ GenSig(c) ==
 RecvQuery(c) ==
   LET c1 == GenCommit(ResetKeys([c EXCEPT !.auth = "awaitDHKey"])) IN
   Res(c1, <<Commit(c1.held)>>, 0, FALSE, "none", FALSE)
+
+(* A malformed D-H commit (bad: the harness sends a commit cut down to its header): processDHCommit /
+   compareToDHCommit return an error.  gxBytes is assigned before the error is noticed, so the commit held is gone. *)
+RecvBadCommit(c) ==
+  CASE c.auth = "none" ->
+         IF FixCommitState THEN Fail([c EXCEPT !.held = 0, !.heldDec = TRUE])
+         ELSE Fail([c EXCEPT !.auth = "awaitReveal", !.held = 0, !.heldDec = TRUE])   \* before b85d235: no D-H key was ever made (gy = 0)
+    [] c.auth = "awaitDHKey" -> Fail(c)                                                \* compareToDHCommit fails first, nothing touched
+    [] c.auth = "awaitReveal" -> Fail([c EXCEPT !.held = 0, !.heldDec = TRUE])
+    [] c.auth = "awaitSig" -> Fail([c EXCEPT !.held = 0, !.heldDec = TRUE])
 
 RecvCommit(c, m) ==
   CASE c.auth = "none" ->
@@ -253,7 +265,7 @@ RecvData(c, m, bad) ==
 
 RecvMsg(c, m, bad) ==
   CASE m.t = "query"  -> RecvQuery(c)
-    [] m.t = "commit" -> RecvCommit(c, m)
+    [] m.t = "commit" -> IF bad THEN RecvBadCommit(c) ELSE RecvCommit(c, m)
     [] m.t = "dhkey"  -> RecvDHKey(c, m)
     [] m.t = "reveal" -> RecvReveal(c, m)
     [] m.t = "sig"    -> RecvSig(c, m)
@@ -383,7 +395,8 @@ Fault(kind, p, pos) ==
        [] kind = "dup"    -> /\ pos \in 1..Len(net[p])
                              /\ (pos = 1 \/ Head(net[p]).n = 1)   \* a fragment is repeated at once, a whole message at any later point
                              /\ net' = [net EXCEPT ![p] = SubSeq(@, 1, pos) \o <<Head(@)>> \o SubSeq(@, pos + 1, Len(@))]
-       [] kind = "tamper" -> /\ pos = 0 /\ Head(net[p]).m.t = "data" /\ ~Head(net[p]).bad
+       [] kind = "tamper" -> /\ pos = 0 /\ ~Head(net[p]).bad
+                             /\ (Head(net[p]).m.t = "data" \/ (Head(net[p]).m.t = "commit" /\ Head(net[p]).n = 1))
                              /\ net' = [net EXCEPT ![p][1].bad = TRUE]
   /\ bud' = [bud EXCEPT !.faults = @ - 1]
   /\ last' = [act |-> kind, p |-> p, arg |-> pos, body |-> 0, encf |-> FALSE, chg |-> "none", err |-> FALSE,
@@ -434,6 +447,7 @@ SlotBound == \A p \in Parties : Cardinality(cv[p].slots) <= 4
 Hidden(c) == [c EXCEPT !.slots = {}, !.fk = 0, !.fn = 0, !.fbuf = <<>>]
 BadAtHead(p) ==
   /\ net[p] # <<>>
+  /\ Head(net[p]).m.t = "data"
   /\ LET w == Head(net[p]) IN
      IF w.n = 1 THEN w.bad
      ELSE /\ w.k > 1 /\ w.k = w.n /\ w.n = cv[p].fn /\ w.k = cv[p].fk + 1
@@ -455,6 +469,10 @@ SMPOutcome == (MaxAuth = 1 /\ Quiet /\ Answered /\ bud.faults = MaxFaults /\ ~En
    ELSE \A p \in Parties : Has(p, "smpfailed") /\ ~Has(p, "smpcomplete")
 (* eventually, under fair delivery and a responder who answers *)
 SMPFinishes == [](Answered => <>(\A p \in Parties : Has(p, "smpcomplete") \/ Has(p, "smpfailed")))
+
+(* whoever waits for a reveal-signature message has made its D-H key (serializeDHKey would dereference nil otherwise:
+   the panic repaired by b85d235) *)
+NoNilKey == \A p \in Parties : cv[p].auth = "awaitReveal" => cv[p].gy # 0
 
 (* the abstraction of reassembly is safe: with at most one fault no buffer ever mixes two messages *)
 NoSplice == \A p \in Parties : cv[p].fbuf = <<>> \/ \A i \in 1..Len(cv[p].fbuf) : cv[p].fbuf[i].m = cv[p].fbuf[1].m
